@@ -70,8 +70,15 @@ NINTER = len(INTER)
 NOW = '2020-06-15T12:00:00'
 
 
-def make_world():
+def make_world(orphans_only=False):
     nodes = [W.d('/h'), W.d('/v/.Trash', 0o1777), W.f('/v/keep', 'KEEP', 0o644, 800)] + K.sentinels('/v/out')
+    if orphans_only:
+        # no trash directory holds a single .trashinfo: only payloads without info (what crashed runs or other tools
+        # leave). They are purged like everything else - so they need the same consent
+        for td in ('/h/.local/share/Trash', '/v/.Trash/1000', '/v/.Trash-1000'):
+            nodes += [W.d(td, 0o700), W.d(td + '/info', 0o700), W.d(td + '/files', 0o700), W.f(td + '/files/thesis.odt', 'THESIS', 0o644, 2300),
+                      W.d(td + '/files/photos'), W.f(td + '/files/photos/1.jpg', 'JPG', 0o644, 2301)]
+        return W.W(mounts=K.MOUNTS, cwd='/v', nodes=nodes)
     nodes += K.trashed('/h/.local/share/Trash', 'old', '/h/w/old', '2020-06-01T00:00:00', 'dir', 2000)
     nodes += K.trashed('/h/.local/share/Trash', 'new', '/h/w/new', '2020-06-15T11:00:00', 'file', 2020)
     nodes += K.trashed('/v/.Trash/1000', 'mid', 'w/mid', '2020-06-10T00:00:00', 'link-dir', 2040)
@@ -120,10 +127,10 @@ def _dry(days, td, verbose):
         return rt.ok()
 
 
-def _inter(inter, reply, days, envx=None):
+def _inter(inter, reply, days, envx=None, orphans_only=False):
     with rt.untraced():
-        rt.begin(('interactive', INTER[inter], REPLIES[reply], DAYS[days], envx))
-        world = make_world()
+        rt.begin(('interactive', INTER[inter], REPLIES[reply], DAYS[days], envx, orphans_only))
+        world = make_world(orphans_only)
         mode = INTER[inter]
         args = []
         if mode in ('-f then -i', '-i then -f', '-fi', '--interactive'):
@@ -159,7 +166,7 @@ def _inter(inter, reply, days, envx=None):
         elif mode == '-i then -f':
             asks = False
         consent = (not asks) or (rp is not None and rp[:1] in ('y', 'Y'))
-        label = 'mode=%s:reply=%r' % (mode, rp) + (':env-%s=%s' % ('+'.join(names), envx) if envx else '')
+        label = 'mode=%s:reply=%r' % (mode, rp) + (':env-%s=%s' % ('+'.join(names), envx) if envx else '') + (':only-orphans-in-the-trash' if orphans_only else '')
         if not consent:
             if after != before:
                 return rt.fail('C14:purged-without-consent:' + label, repr(scen.delta(before, after)[0])[:300])
@@ -195,6 +202,14 @@ def w_inter(inter: int, reply: int, days: int) -> str:
     return _inter(rt.sel(inter, NINTER), rt.sel(reply, 13), rt.sel(days, 4))
 
 
+def w_inter_orphans(inter: int, reply: int, days: int) -> str:
+    """
+    pre: 0 <= inter < NINTER and 0 <= reply < 13 and 0 <= days < 4
+    post: _ == ''
+    """
+    return _inter(rt.sel(inter, NINTER), rt.sel(reply, 13), rt.sel(days, 4), None, True)
+
+
 def obligations(tier):
     from harness import kpair
     return kpair.obligations(tier) + [
@@ -209,4 +224,6 @@ def obligations(tier):
            bounds='every environment variable the run consults beyond the documented ones set to 0 / no; 11 interactive modes x replies n, empty, EOF, y'),
         CH('W_interactive', MOD, 'w_inter', timeout=600, engine='W', regime='selector', encodes=K.EMPTY_FUNCS, stubs=K.STUBS,
            bounds='11 interactive modes (-i, tty, both, tty with -f, none, terminal with stdout piped, terminal with stdin piped) x 13 replies incl. empty and EOF x 4 DAYS'),
+        CH('W_interactive_only_orphans_in_the_trash', MOD, 'w_inter_orphans', timeout=600, engine='W', regime='selector', encodes=K.EMPTY_FUNCS, stubs=K.STUBS,
+           bounds='the same modes x replies x DAYS over trash directories that hold no .trashinfo at all, only payloads without info'),
     ]
